@@ -41,6 +41,8 @@ type Config struct {
 	NoCancel        bool // no BlobWriter.Cancel (it has no wire representation)
 	NoWrongOffset   bool // no deliberately wrong resume offsets
 	NoHint          bool // chunk-size hint always 0
+	BlobTypes       bool // truthful pushes under a second blob media type (in-process registries only)
+	KeepCommitted   bool // keep using a writer after its successful commit
 }
 
 var validRepoPool = []string{"foo", "foo/bar", "fooey", "a/blobs/uploads", "manifests/x/tags", "b", "x1/referrers", "v2/list"}
@@ -269,6 +271,9 @@ func Gen(cfg Config) func(t *rapid.T) Script {
 					op.Mode = rapid.IntRange(1, 3).Draw(t, "mismatchKind") // mode 4 (empty media type) is a documented gray zone: not generated
 				} else {
 					sh.blobs[[2]int{op.R, op.B}] = 1
+					if cfg.BlobTypes && rapid.IntRange(0, 3).Draw(t, "blobType") == 0 {
+						op.Mode = 5
+					}
 				}
 			case "getBlob", "resolveBlob":
 				op.B = pickState(t, sh.blobs, op.R, nb, "blob")
@@ -363,7 +368,7 @@ func Gen(cfg Config) func(t *rapid.T) Script {
 					sh.pending[op.W] = true
 				}
 			case "upCommit":
-				sh.writers[op.W] = false
+				sh.writers[op.W] = cfg.KeepCommitted && rapid.Bool().Draw(t, "keepAfterCommit")
 				if cfg.Mismatch && rapid.IntRange(0, 5).Draw(t, "wrongDigest") == 0 {
 					op.Mode = 1
 					sh.writers[op.W] = true // the session survives a failed commit (and stays failed)
